@@ -1,7 +1,9 @@
 ------------------------------- MODULE MC_Ecs -------------------------------
 EXTENDS Ecs
 \* 98.51.100.10, 98.51.100.200 (same /24), 98.51.101.5 (same /16, other /24), 98.77.0.1 (other /16), 10.1.2.3
+\* and 98.51.0.9: lives in the /24 that the ZERO-EXTENDED /16 announcement of clients 1-3 falls into, so a probe that
+\* treats announced-but-unknown bits as zeros would hand its /24 answer to a client of another /24
 \* (first octet < 128: TLC integers are 32-bit signed)
-MCClients == 1..5
-MCAddr == (1 :> 1647535114 @@ 2 :> 1647535304 @@ 3 :> 1647535365 @@ 4 :> 1649213441 @@ 5 :> 167838211)
+MCClients == 1..6
+MCAddr == (1 :> 1647535114 @@ 2 :> 1647535304 @@ 3 :> 1647535365 @@ 4 :> 1649213441 @@ 5 :> 167838211 @@ 6 :> 1647509513)
 =============================================================================
